@@ -37,12 +37,29 @@ struct CheckDiagnostic {
 }
 
 /// Apply fixes to the source code, returning the modified source.
-fn apply_fixes(src: &str, fixes: &[Autofix]) -> String {
-    let mut fixes = fixes.to_vec();
+///
+/// Each item in `fix_groups` is the fixes of one diagnostic, which
+/// only make sense together. A group that overlaps with a group
+/// already chosen (e.g. a fix inside a `match` case that another fix
+/// deletes) is skipped: applying both would edit the wrong text. The
+/// user can run `--fix` again to apply it.
+fn apply_fixes(src: &str, fix_groups: &[Vec<Autofix>]) -> String {
+    let mut fixes: Vec<Autofix> = vec![];
+    for group in fix_groups {
+        let mut candidate = fixes.clone();
+        candidate.extend(group.iter().cloned());
+        // Sort fixes by start offset in descending order so we can
+        // apply them from the end without invalidating earlier
+        // offsets.
+        candidate.sort_by_key(|b| std::cmp::Reverse(b.position.start_offset));
 
-    // Sort fixes by start offset in descending order so we can apply
-    // them from the end without invalidating earlier offsets.
-    fixes.sort_by_key(|b| std::cmp::Reverse(b.position.start_offset));
+        let overlapping = candidate
+            .windows(2)
+            .any(|w| w[1].position.end_offset > w[0].position.start_offset);
+        if !overlapping {
+            fixes = candidate;
+        }
+    }
 
     let mut result = src.to_owned();
     for fix in fixes {
@@ -64,7 +81,8 @@ pub(crate) fn check(
     let use_color = std::io::stdout().is_terminal() && !json && !fix;
 
     let mut diagnostics = vec![];
-    let mut all_fixes: Vec<Autofix> = vec![];
+    // The fixes of each diagnostic that has any.
+    let mut all_fixes: Vec<Vec<Autofix>> = vec![];
 
     let mut id_gen = IdGenerator::default();
     let (vfs, vfs_path) = Vfs::singleton(path.to_owned(), src.to_owned());
@@ -133,7 +151,9 @@ pub(crate) fn check(
             fixes,
         } in raw_diagnostics
         {
-            all_fixes.extend(fixes);
+            if !fixes.is_empty() {
+                all_fixes.push(fixes);
+            }
 
             diagnostics.push(CheckDiagnostic {
                 position: position.clone(),
@@ -189,7 +209,7 @@ pub(crate) fn check(
 
     if !diagnostics.is_empty() {
         if !json && !all_fixes.is_empty() {
-            let num_fixable = all_fixes.len();
+            let num_fixable: usize = all_fixes.iter().map(|fixes| fixes.len()).sum();
             eprintln!(
                 "\n{} {} can be fixed automatically (use `--fix`).",
                 num_fixable,
